@@ -19,3 +19,29 @@ package bus
 //@   requires arg1 != nil
 //@   ensures ledgerVolume(recv, arg0) == old(ledgerVolume(recv, arg0)) + old(arg1.val)
 //@   modifies ledgerVolume(recv, arg0)
+
+//@ # ---------------------------------------------------------------- the other modules seen through the bus
+//@ # abstract views: total-slashed pool of the app module, volume and reserve of the coins module (the implementations
+//@ # in packages app and coins are tied to these by their own contracts); slashTotal(app) is the pool's content
+//@ ghost slashTotal(a App) int
+//@ ghost busCoinVolume(c Coins, id types.CoinID) int
+//@ ghost busCoinReserve(c Coins, id types.CoinID) int
+//@ ghost busCache() int
+//@ func iface App.AddTotalSlashed
+//@   requires arg0 != nil
+//@   ensures slashTotal(recv) == old(slashTotal(recv)) + old(arg0.val)
+//@   modifies slashTotal(recv), ledgerDelta, busCache
+//@ func iface App.Reward
+//@   ensures result0 != nil && result1 != nil && fresh(result0) && fresh(result1) && 0 <= result0.val && result0.val <= result1.val
+//@   modifies busCache
+//@ func iface Coins.GetCoin
+//@   ensures result != nil ==> fresh(result) && result.Volume != nil && result.Reserve != nil && fresh(result.Volume) && fresh(result.Reserve) && result.Volume.val == busCoinVolume(recv, arg0) && result.Reserve.val == busCoinReserve(recv, arg0) && result.ID == arg0
+//@   modifies busCache
+//@ func iface Coins.SubCoinVolume
+//@   requires arg1 != nil
+//@   ensures busCoinVolume(recv, arg0) == old(busCoinVolume(recv, arg0)) - old(arg1.val)
+//@   modifies busCoinVolume(recv, arg0), ledgerVolume, busCache
+//@ func iface Coins.SubCoinReserve
+//@   requires arg1 != nil
+//@   ensures busCoinReserve(recv, arg0) == old(busCoinReserve(recv, arg0)) - old(arg1.val)
+//@   modifies busCoinReserve(recv, arg0), ledgerDelta, busCache
